@@ -12,7 +12,7 @@ from gvmon.monitors import contracts
 
 RULE = ("files = interleavings of directive/comment/blank/feature lines: all sequences of <= 5 (quick) / <= 8 (thorough) "
         "line kinds x checklines {0,1,2,10}, and random files with 0..30 features before a directive, with/without a "
-        "##FASTA or bare '>' section holding ##-looking and tab-separated lines, LF and CRLF, path and from_string, "
+        "##FASTA or bare '>' section holding ##-looking and tab-separated lines, LF and CRLF, path, gzip path and from_string, "
         "inferred and supplied dialect; non-trivial = a directive sits after feature number checklines+1 (beyond the "
         "inspection window) or a FASTA section is present; distinct by (file text, checklines, input form)")
 REQUIRED = ["DataIterator.directives compared", "db.directives compared", "reopened directives compared",
@@ -48,11 +48,13 @@ def build(kinds, fasta=None):
         if k == "D":
             # directive shapes: ordinary, '###' (text '#'), bare '##' (empty text), text with blanks
             lines.append(["##d%d sequence-region chr1 1 %d" % (i, 1000 + i), "###", "##dir %d" % i, "##", "## spaced  %d " % i,
-                          "##d%d sequence-region chr1 1 %d" % (i, 1000 + i)][(i + len(kinds)) % 6])
+                          "##d%d sequence-region chr1 1 %d" % (i, 1000 + i),
+                          # characters that str.splitlines() takes for line ends although file reading does not
+                          "##note%d form\x0cfeed\u2028sep\x85nel\x1cfs end" % i][(i + len(kinds)) % 7])
         elif k == "C":
             # comment shapes: ordinary, '#!' pragma-style, bare '#', '# ##'
             lines.append(["#comment %d\twith\ttabs ##not-a-directive" % i, "#!genome-build GRCh%d" % i, "#", "# ## not a directive",
-                          "#\tx"][(i + len(kinds)) % 5])
+                          "#\tx", "# vt\x0bx\u2029chr1\ts\tgene\t1\t2\t.\t+\t.\tID=ghost%d" % i][(i + len(kinds)) % 6])
         elif k == "B":
             lines.append("")
         else:
@@ -88,6 +90,12 @@ def execute(ctx, case):
         src = ctx.tmp(".gff")
         with open(src, "w", encoding="utf-8", newline="") as fh:
             fh.write(text)
+        data, fs = src, False
+    elif case["input"] == "gz":
+        import gzip
+        src = ctx.tmp(".gff.gz")
+        with gzip.open(src, "wb") as fh:
+            fh.write(text.encode("utf-8"))
         data, fs = src, False
     else:
         data, fs = text, True
@@ -181,7 +189,7 @@ def run(ctx):
                     continue
                 fasta = [None, "fasta", "bare"][i % 3] if (i % 4 == 0) else None
                 lines = build(kinds, fasta)
-                case = {"kind": "file", "lines": lines, "checklines": ck, "input": "string" if i % 5 == 0 else "path",
+                case = {"kind": "file", "lines": lines, "checklines": ck, "input": "string" if i % 5 == 0 else ("gz" if i % 5 == 1 else "path"),
                         "supplied_dialect": i % 7 == 0}
                 execute(ctx, case)
                 n += 1
@@ -192,6 +200,20 @@ def run(ctx):
                     sample = case
     ctx.case_enum(n, nt, sample=sample)
     ctx.mon("enumerated interleavings x checklines", n)
+    if ctx.tier == "thorough" and ctx.shard == 0:
+        import sqlite3
+        try:
+            c0 = sqlite3.connect(":memory:")
+            limit = c0.getlimit(sqlite3.SQLITE_LIMIT_VARIABLE_NUMBER)
+            c0.close()
+        except Exception:
+            limit = 32766
+        nd = min(limit, 300000) + 50
+        lines = ["##d %d" % j for j in range(nd)] + ["chr1\tsrc\tgene\t1\t5\t.\t+\t.\tID=g1"]
+        case = {"kind": "file", "lines": lines, "checklines": 10, "input": "path"}
+        execute(ctx, case)
+        ctx.mon("files with more directives than SQLite's bound-parameter limit")
+        ctx.case(("many directives", nd), True, cls="very many directives")
     for _ in range(ctx.budget(600, 40000)):
         ck = rng.choice([0, 1, 2, 10])
         kinds = []
@@ -202,7 +224,7 @@ def run(ctx):
         rng_f = rng.random()
         fasta = "fasta" if rng_f < 0.2 else ("bare" if rng_f < 0.3 else None)
         lines = build(kinds, fasta)
-        case = {"kind": "file", "lines": lines, "checklines": ck, "input": rng.choice(["path", "path", "string"]),
+        case = {"kind": "file", "lines": lines, "checklines": ck, "input": rng.choice(["path", "path", "string", "gz"]),
                 "eol": "\r\n" if rng.random() < 0.15 else "\n", "final_eol": rng.random() < 0.9,
                 "supplied_dialect": rng.random() < 0.1}
         execute(ctx, case)
